@@ -490,3 +490,31 @@ def req_raw(srv, method, path, params=None, headers=None, body=None, timeout=20)
         return -1, ("transport error: %r" % (e,)).encode()
     finally:
         conn.close()
+
+
+def pb_fixed64(fno, n):
+    return pb_varint((fno << 3) | 1) + struct.pack("<Q", n)
+
+
+def _otlp_kv(k, v):
+    return pb_bytes(1, k) + pb_bytes(2, pb_bytes(1, v))
+
+
+def otlp_body(kind, tag):
+    """ExportMetricsServiceRequest / ExportLogsServiceRequest / ExportTraceServiceRequest with one item tagged `tag`"""
+    now = int(time.time() * 1e9)
+    if kind == "metrics":
+        dp = pb_bytes(7, _otlp_kv("case", tag)) + pb_fixed64(2, now - 1000000) + pb_fixed64(3, now) + pb_double(4, 7.5)
+        metric = pb_bytes(1, "gaugeval") + pb_bytes(5, pb_bytes(1, dp))
+        # the scope name becomes the measurement
+        return pb_bytes(1, pb_bytes(2, pb_bytes(1, pb_bytes(1, "c19otlp_metric")) + pb_bytes(2, metric)))
+    if kind == "logs":
+        rec = pb_fixed64(1, now) + pb_int(2, 9) + pb_bytes(3, "INFO") + pb_bytes(5, pb_bytes(1, "c19otlp log " + tag)) + \
+            pb_bytes(6, _otlp_kv("case", tag))
+        return pb_bytes(1, pb_bytes(2, pb_bytes(2, rec)))
+    if kind == "traces":
+        h = hashlib.sha256(tag.encode()).digest()
+        span = pb_bytes(1, h[:16]) + pb_bytes(2, h[16:24]) + pb_bytes(5, "c19otlp span " + tag) + pb_int(6, 1) + \
+            pb_fixed64(7, now - 1000000) + pb_fixed64(8, now) + pb_bytes(9, _otlp_kv("case", tag))
+        return pb_bytes(1, pb_bytes(2, pb_bytes(2, span)))
+    raise ValueError(kind)
